@@ -460,8 +460,12 @@ def gen_wild(rng):
     return proj
 
 
+LAST_DETAILS = []      # descriptions of the malformations applied by the last gen_case (for the input distribution)
+
+
 def gen_case(rng):
     """-> (project, label)"""
+    del LAST_DETAILS[:]
     r = rng.random()
     if r < 0.3:
         return normalize(gen_valid(rng)), "valid"
@@ -473,8 +477,10 @@ def gen_case(rng):
         kinds.append(rng.choice(MUTATIONS))
     done = []
     for k in kinds:
-        if mutate(rng, proj, k):
+        desc = mutate(rng, proj, k)
+        if desc:
             done.append(k)
+            LAST_DETAILS.append(desc)
     return normalize(proj), "+".join(done) if done else "valid"
 
 
